@@ -34,6 +34,7 @@ type EvalCtx struct {
 	depth    int
 	err      error
 	paramsFirst bool
+	facts    *[]*Term // well-formedness facts about values read during evaluation
 }
 
 func (c *EvalCtx) fail(format string, a ...interface{}) TV {
@@ -469,6 +470,14 @@ func (c *EvalCtx) ident(name string) TV {
 					return TV{V: v, T: a.Type()}
 				}
 			}
+			if c.paramsFirst {
+				// the local is not live on this path: an arbitrary value of its type
+				et := derefType(a.Type())
+				if isStruct(et) {
+					return TV{V: x.tb.Fresh("dead."+name, IntSort), T: a.Type()}
+				}
+				return TV{V: x.freshOf("dead."+name, et), T: et}
+			}
 		}
 	}
 	if v, ok := c.params[name]; ok {
@@ -673,6 +682,10 @@ func (c *EvalCtx) field(e *Expr) TV {
 	}
 	if sv, ok := v.(SliceV); ok {
 		x.axiom(x.typeInv(sv, fi.T, nil))
+		c.fact(x.tb.Lt(sv.Arr, h.A))
+	}
+	if t, ok := v.(*Term); ok && isRefLike(fi.T) && !isString(fi.T) && t.Sort == IntSort {
+		c.fact(x.tb.Lt(t, h.A))
 	}
 	ft := fi.T
 	if isStruct(ft) {
@@ -958,4 +971,20 @@ func (c *EvalCtx) callExpr(e *Expr) TV {
 		return r
 	}
 	return c.fail("unknown function %s in contract", name)
+}
+
+func (c *EvalCtx) fact(t *Term) {
+	if c.facts == nil || mentionsBound(t) {
+		return
+	}
+	*c.facts = append(*c.facts, t)
+}
+
+// boolWithFacts evaluates a clause and returns it together with the side facts collected.
+func (c *EvalCtx) boolWithFacts(e *Expr) (*Term, *Term) {
+	var fs []*Term
+	c.facts = &fs
+	g := c.boolTerm(e)
+	c.facts = nil
+	return g, c.x.tb.And(fs...)
 }
